@@ -31,7 +31,7 @@ pub struct Prog {
     pub overrides: bool,
 }
 
-pub const F_SHAPES: [(&str, usize); 10] = [
+pub const F_SHAPES: [(&str, usize); 11] = [
     ("", 0),
     (" -> @location(0) vec4<f32>", 1),
     (" -> @location(2) vec4<f32>", 3),
@@ -42,6 +42,7 @@ pub const F_SHAPES: [(&str, usize); 10] = [
     (" -> FOutDescending", 3),
     (" -> FOutSwapped", 2),
     (" -> FOutSingleHigh", 6),
+    (" -> @location(1) f32", 2),
 ];
 const F_TYPES: &str = "struct FOutMixed { @location(0) a: vec4<f32>, @builtin(frag_depth) d: f32, @location(1) b: vec4<f32> };\nstruct FOutSparse { @location(1) a: vec4<f32>, @location(3) b: vec4<f32> };\nstruct FOutBuiltins { @builtin(frag_depth) d: f32, @builtin(sample_mask) m: u32 };\nstruct FOutDescending { @location(2) bright: vec4<f32>, @builtin(frag_depth) d: f32, @location(0) colour: vec4<f32> };\nstruct FOutSwapped { @location(1) a: vec4<f32>, @location(0) b: vec4<f32> };\nstruct FOutSingleHigh { @builtin(sample_mask) m: u32, @location(5) only: vec4<f32> };\n";
 const V_TYPES: &str = "struct VInA { @location(0) a: vec4<f32>, @builtin(vertex_index) vi: u32 };\nstruct VInB { @location(1) b: vec2<f32> };\nstruct VInBuiltins { @builtin(instance_index) i: u32 };\n";
@@ -52,7 +53,7 @@ fn f_body(shape: usize) -> String {
     match shape {
         0 => String::new(),
         1 | 2 => "    return vec4<f32>(1.0);\n".into(),
-        3 => "    return 0.5;\n".into(),
+        3 | 10 => "    return 0.5;\n".into(),
         4 => "    var o: FOutMixed;\n    return o;\n".into(),
         5 => "    var o: FOutSparse;\n    return o;\n".into(),
         6 => "    var o: FOutBuiltins;\n    return o;\n".into(),
@@ -109,6 +110,26 @@ pub fn space(thorough: bool) -> Vec<Prog> {
                     out.push(build(vs, fs, cs, ov, format!("one|v={v}|f={f}|c={c}|ov={}", ov as u8)));
                 }
             }
+        }
+    }
+    // two entries of one stage: every ordered pair of shapes (same result / parameter type with different bindings,
+    // the same struct twice, a high location before a low one, ...)
+    for a in 0..F_SHAPES.len() {
+        for b in 0..F_SHAPES.len() {
+            let fs = vec![FEntry { name: F_NAMES[a % 5].to_string(), shape: a }, FEntry { name: F_NAMES[(a % 5 + 1 + b % 4) % 5].to_string(), shape: b }];
+            out.push(build(vec![], fs, vec![], false, format!("pair|f={a},{b}")));
+        }
+    }
+    for a in 0..V_PARAMS.len() {
+        for b in 0..V_PARAMS.len() {
+            let vs = vec![VEntry { name: V_NAMES[a % 5].to_string(), params: V_PARAMS[a].to_vec() }, VEntry { name: V_NAMES[(a % 5 + 1 + b % 4) % 5].to_string(), params: V_PARAMS[b].to_vec() }];
+            out.push(build(vs, vec![], vec![], (a + b) % 2 == 1, format!("pair|v={a},{b}")));
+        }
+    }
+    for a in 0..C_SIZES.len() {
+        for b in 0..C_SIZES.len() {
+            let cs = vec![CEntry { name: C_NAMES[a % 5].to_string(), size: a }, CEntry { name: C_NAMES[(a % 5 + 1 + b % 4) % 5].to_string(), size: b }];
+            out.push(build(vec![], vec![], cs, false, format!("pair|c={a},{b}")));
         }
     }
     // several entries per stage
@@ -510,6 +531,6 @@ pub fn run(tier: &str) -> i32 {
     rep.set("compiled_modules", json!(cases.len()));
     rep.sample(json!({"key": progs[10].key, "wgsl": progs[10].src}));
     rep.sample(json!({"key": progs[progs.len() - 1].key, "wgsl": progs[progs.len() - 1].src}));
-    rep.rule = "full product of {no vertex entry, 7 parameter shapes (none, 1 struct, 2 structs, struct+builtin, builtin+2 structs, builtin-only struct, struct + builtin-only struct)} x {no fragment entry, 10 result shapes (none, @location(0), @location(2), builtin only, struct{loc0,builtin,loc1}, struct{loc1,loc3}, struct{builtins}, struct{loc2,builtin,loc0}, struct{loc1,loc0}, struct{builtin,loc5})} x {no compute entry, 5 workgroup sizes incl. constants} x overrides present/absent, names rotating over ascii / mixed case / single letter / non-ASCII / upper case; plus programs with 2..3 entries per stage. omodel on every state; a spread subset compiled against real wgpu and executed on the stand-in (every helper and pipeline constructor called, descriptors recorded). Colour-target count expected = highest written @location + 1.".into();
+    rep.rule = "full product of {no vertex entry, 7 parameter shapes (none, 1 struct, 2 structs, struct+builtin, builtin+2 structs, builtin-only struct, struct + builtin-only struct)} x {no fragment entry, 11 result shapes (none, @location(0), @location(2), @location(1) f32, builtin only, struct{loc0,builtin,loc1}, struct{loc1,loc3}, struct{builtins}, struct{loc2,builtin,loc0}, struct{loc1,loc0}, struct{builtin,loc5})} x {no compute entry, 5 workgroup sizes incl. constants} x overrides present/absent, names rotating over ascii / mixed case / single letter / non-ASCII / upper case; plus every ordered pair of fragment shapes / vertex parameter shapes / workgroup sizes as two entries of one stage, and programs with 2..3 entries per stage. omodel on every state; a spread subset compiled against real wgpu and executed on the stand-in (every helper and pipeline constructor called, descriptors recorded). Colour-target count expected = highest written @location + 1.".into();
     rep.finish()
 }
